@@ -638,6 +638,19 @@ def r3(ctx):
             ctx.ob("C14.R3", f"{f.qual}: {var}{what} ({'/'.join(sorted(kinds))}) dominated by a not-None check", ok,
                    ctx.w(f, n), f"{var} comes from an Optional lookup that this function elsewhere tests for None, "
                                 f"but this dereference is not guarded: a None result raises in the handler")
+    # an id lookup can always miss: dereferencing its result in place can never be guarded
+    for f in repo.all_funcs:
+        if f.module.rel not in ANCHOR_FILES:
+            continue
+        for n in walk(f.node):
+            if isinstance(n, (ast.Attribute, ast.Subscript)) and isinstance(n.value, ast.Call) and isinstance(n.ctx, ast.Load):
+                k = _lookup_kind(n.value)
+                if k in ("lookup_localid", "lookup_fullid", "lookup_avatar") or (k or "").endswith(".get"):
+                    what = f".{n.attr}" if isinstance(n, ast.Attribute) else "[]"
+                    ctx.ob("C14.R3", f"{f.qual}: {k}(...){what} dereferenced in place", False, ctx.w(f, n),
+                           f"{norm(n)[:100]}: a lookup by local / full id returns None for an id that is not tracked "
+                           f"(ordinary: killed, never announced, selected by the viewer only); the in-place dereference "
+                           f"raises in the handler")
     ctx.floor("C14.R3", "functions that None-test a lookup result", nfuncs, 8)
     ctx.floor("C14.R3", "guarded dereferences", nobs, 15)
 
@@ -1306,9 +1319,68 @@ def r8(ctx):
     ctx.floor("C14.R8", "PCode dispatch tables", nt, 1)
 
 
+# --------------------------------------------------------------------------- R9
+
+def r9(ctx):
+    """One Object per FullID: a freshly built Object is tracked only where a lookup by the announced FullID
+    returned nothing."""
+    from ..core import conditions
+    from .common import class_methods_reachable
+    repo = ctx.repo
+    ctx.rule("C14.R9", "one Object per FullID: in the update handlers (and their helpers) a freshly built Object reaches "
+                       "_track_new_object / track_object only on the branch where lookup_fullid(<its FullID>) found nothing")
+    funcs = []
+    for h in ("_handle_object_update", "_handle_object_update_compressed", "_handle_object_update_cached"):
+        for g in class_methods_reachable(repo, repo.fn(f"{WM}.{h}"), depth=3):
+            if g not in funcs and g.name not in ("_track_new_object", "_update_existing_object", "_kill_object_by_local_id"):
+                funcs.append(g)
+    n = 0
+    for g in funcs:
+        for c in [c for c in calls(g.node) if call_attr(c) in ("_track_new_object", "track_object")]:
+            fresh = None
+            for a in c.args:
+                o = origin(g.node, a)
+                if isinstance(o, ast.Call) and (ap(o.func) or "").split(".")[-1] == "Object":
+                    fresh = o
+            if fresh is None:
+                continue
+            n += 1
+            src_names = {ap(k.value) for k in fresh.keywords if k.arg is None and ap(k.value)}
+            ok, why = False, "no dominating `lookup_fullid(<data>['FullID'])` miss"
+            for cond in conditions(c, g.node):
+                for e, pol in atoms(cond.test, cond.polarity):
+                    t = is_none_test(e)
+                    var = t[0] if (t and t[1] == pol) else (e.id if isinstance(e, ast.Name) and not pol else None)
+                    if var is None or "." in var:
+                        continue
+                    guard = enclosing_stmt(cond.test)
+                    block, _ = _block_of(guard)
+                    if block is None:
+                        continue
+                    last = None     # the binding of var in force at the guard
+                    for st in block:
+                        if st is guard:
+                            break
+                        for s_ in stores(st, into_defs=False):
+                            if s_.path == var:
+                                last = s_
+                    v = last.value if last is not None and last.kind == "assign" else None
+                    if isinstance(v, ast.Call) and call_attr(v) == "lookup_fullid" and v.args \
+                            and isinstance(v.args[0], ast.Subscript) and isinstance(v.args[0].slice, ast.Constant) \
+                            and v.args[0].slice.value == "FullID" and (not src_names or ap(v.args[0].value) in src_names):
+                        ok = True
+                    elif v is not None:
+                        why = f"`{var}` tested at the guard comes from {norm(v)[:80]}, not from a lookup by the new object's FullID"
+            ctx.ob("C14.R9", f"{g.qual}: {call_attr(c)}({norm(fresh)[:60]}) only after lookup_fullid missed", ok, ctx.w(g, c),
+                   f"{why}: an object that is already tracked under this FullID gets a second Object; the old instance "
+                   f"leaves the indices but stays in its parent's ChildIDs/Children")
+    ctx.floor("C14.R9", "fresh-Object tracking sites in the update handlers", n, 1)
+
+
 def run(ctx):
     discover_futures_table(ctx)
     r8(ctx)
+    r9(ctx)
     r1(ctx)
     r2(ctx)
     r2_kill_blocks(ctx)
